@@ -325,11 +325,80 @@ def rule_d(ctx):
     ctx.floor(R, 1)
 
 
+def rule_e(ctx):
+    R = "C13.e"
+    ctx.rule(R, "the baseline maps to zero also with a cleaning filter: cleaning is clip(x - filter, 0, None), so the filter learnt from extra "
+             "baselines must be >= 0 everywhere (for the `plain` difference the reduced differences can be negative) and >= the reduced "
+             "difference of each extra baseline; find_cleaning_filter is folded on two extra baselines and the filter term is bounded "
+             "from below through zeros / np.maximum / np.max / whole-array stores")
+    from ..fold import Arr, Folder, Obj, Opaque, Raised, Refuse, Sym
+    from ..terms import nf
+
+    m = ctx.model
+    f = m.func(MOD, "ConcentrationAnalysis.find_cleaning_filter")
+    ctx.instance(R)
+    fo = Folder(symbolic=True)
+    fo.func_stack.append(f.node)
+    fo.overrides = {"self._subtract_background": lambda a, k: Sym("S", a), "self._reduce_signal": lambda a, k: Sym("R", a)}
+    imgs = [Obj(f"B{i}", {"copy": (lambda a, k, i=i: Opaque("img", f"B{i}c")), "img": Opaque("arr", f"B{i}.img")}) for i in range(3)]
+    so = Obj("self", {"__class__": "ConcentrationAnalysis", "base": Obj("base", {"img": Opaque("arr", "BASE", {"shape": (4, 5, 3)})}), "_base_collection": imgs})
+    args = [so] + [None if p_ == "baseline_images" else False for p_ in f.params[1:]]
+    try:
+        fo.call(f.node, args)
+    except (Refuse, Raised) as e:
+        raise AnalysisError(f"{f.qname}: outside the folding language ({e})")
+    term = so.fields.get("threshold_cleaning_filter")
+    ctx.need(term is not None, f"{f.qname}: self.threshold_cleaning_filter is not set for two extra baselines")
+    # whole-array stores replace the value of the array they go into
+    repl = {}
+    for t in fo.trace:
+        if isinstance(t, Sym) and t.fn == "setitem" and (t.args[1] is Ellipsis or t.args[1] == slice(None) or t.args[1] == (slice(None), slice(None))):
+            repl[id(t.args[0])] = t.args[2]
+        elif isinstance(t, Sym) and t.fn in ("setitem", "augitem") and t.args[0] is term:
+            raise AnalysisError(f"{f.qname}: partial store into the filter: {nf(t)[:80]}")
+    leaves = {f"R(S(B{i}c))" for i in (1, 2)}
+    NEG = float("-inf")
+
+    def lb(v):
+        """(lower bound, leaves it is known to dominate, recognised?)"""
+        if id(v) in repl:
+            return lb(repl[id(v)])
+        if isinstance(v, Arr):
+            flat = [x for row in v.data for x in (row if isinstance(row, list) else [row])]
+            return (min(flat) if flat and all(isinstance(x, (int, float)) or hasattr(x, "numerator") for x in flat) else NEG), set(), True
+        if isinstance(v, (int, float)) and not isinstance(v, bool):
+            return v, set(), True
+        t = nf(v)
+        if t in leaves:
+            return NEG, {t}, True
+        if isinstance(v, Sym):
+            fn = v.fn if v.recv is None else (f"{v.recv.label}.{v.attr}" if isinstance(v.recv, Opaque) and v.recv.tag == "callable" else None)
+            if fn in ("np.maximum", "np.fmax") and len(v.args) == 2:
+                a, b = lb(v.args[0]), lb(v.args[1])
+                return max(a[0], b[0]), a[1] | b[1], a[2] and b[2]
+            if fn in ("np.max", "np.amax", "np.nanmax") and v.args and isinstance(v.args[0], (list, tuple)) and v.kw.get("axis", None) == 0:
+                parts = [lb(x) for x in v.args[0]]
+                return max(p_[0] for p_ in parts), set().union(*[p_[1] for p_ in parts]), all(p_[2] for p_ in parts)
+            if fn in ("np.abs", "np.absolute") and len(v.args) == 1:
+                return 0, set(), True
+            if fn in ("np.zeros", "np.zeros_like"):
+                return 0, set(), True
+            if fn == "np.clip" and len(v.args) >= 2 and isinstance(v.args[1], (int, float)):
+                return v.args[1], set(), True
+        return NEG, set(), False
+    bound, dom, known = lb(term)
+    t_txt = nf(repl.get(id(term), term))[:160]
+    ctx.ob(R, f.qname, "the learnt cleaning filter is >= 0 everywhere", bound >= 0, f"filter = {t_txt}: nothing bounds it from below (a negative entry makes the baseline itself map to a positive signal)" if known else "", f.node, evidence=known)
+    ctx.ob(R, f.qname, "the learnt cleaning filter dominates the reduced difference of every extra baseline", dom == leaves, f"filter = {t_txt} dominates {sorted(dom)} of {sorted(leaves)}" if known else "", f.node, evidence=known)
+    ctx.floor(R, 1)
+
+
 def run(ctx):
     rule_a(ctx)
     rule_b(ctx)
     rule_c(ctx)
     rule_d(ctx)
+    rule_e(ctx)
     # the result is type(probe)(array, **probe.metadata()): it carries the probe's metadata only if metadata() -> constructor is a faithful round trip (C18.a)
     from . import c18
     from .common import shared
